@@ -124,8 +124,10 @@ inline Pt ristretto_map(const U &t_in) {
 }
 
 // One-way map from 64 uniform bytes (RFC 9496 section 4.3.4, "Element Derivation"): each half is masked to its low
-// 255 bits, reduced mod p, mapped; the two points are added and the sum is encoded. Empty result on a bad length.
+// 255 bits, reduced mod p, mapped; the two points are added and the sum is encoded. On a bad length the _pt variant
+// returns the identity and the byte variant an empty string.
 inline Pt ristretto_from_uniform_pt(const Bytes &b64) {
+    if (b64.size() != 64) return Pt();
     Bytes h0 = sub(b64, 0, 32), h1 = sub(b64, 32, 32);
     h0[31] &= 0x7f;
     h1[31] &= 0x7f;
